@@ -118,6 +118,75 @@ void vs_load_script(const char *path)
 	script_pos = 0;
 }
 
+/* guide: a behaviour of the specification to be followed: the order of the shared accesses (thread tag, observation point).
+ * The thread whose turn it is runs until it reports the expected shared access; the others stay parked (they only run
+ * while the thread in turn waits in a barrier).  A shared access out of turn, or an expected one that does not come, is a
+ * mismatch: the guide is abandoned (the run continues under the policy) and the first mismatch is kept for the report. */
+struct guide_ent {
+	int tag;
+	unsigned point;
+};
+static struct guide_ent *guide = NULL;
+static unsigned long guide_len = 0, guide_pos = 0, guide_idle = 0;
+static int guide_on = 0, guide_rr = 0;
+static int tag_of[VS_MAX];
+static char guide_why[200];
+static unsigned shared_points[16], n_shared = 0;
+
+void vs_load_guide(const char *path, const unsigned *shared, unsigned n)
+{
+	FILE *f = fopen(path, "r");
+	if(!f)
+		return;
+	unsigned long cap = 1024;
+	guide = malloc(cap * sizeof(*guide));
+	int t;
+	unsigned k;
+	while(fscanf(f, "%d %u", &t, &k) == 2) {
+		if(guide_len == cap) {
+			cap *= 2;
+			guide = realloc(guide, cap * sizeof(*guide));
+		}
+		guide[guide_len].tag = t;
+		guide[guide_len++].point = k;
+	}
+	fclose(f);
+	for(unsigned i = 0; i < n && i < 16; ++i)
+		shared_points[n_shared++] = shared[i];
+	for(int i = 0; i < VS_MAX; ++i)
+		tag_of[i] = -1;
+	guide_on = 1;
+	guide_why[0] = 0;
+}
+void vs_guide_tag(int tag) { tag_of[self_id] = tag; }
+/* while a behaviour is being followed: the observation point the calling thread is expected to reach next, 0 if it is not its turn,
+ * -1 when no behaviour is being followed */
+int vs_guide_expect(void)
+{
+	if(!guide_on || guide_pos >= guide_len)
+		return -1;
+	return guide[guide_pos].tag == tag_of[self_id] ? (int)guide[guide_pos].point : 0;
+}
+/* 0: no guide, 1: followed to its end, 2: still inside the guide, 3: mismatch */
+int vs_guide_status(unsigned long *pos, unsigned long *len, const char **why)
+{
+	*pos = guide_pos;
+	*len = guide_len;
+	*why = guide_why;
+	if(!guide)
+		return 0;
+	if(guide_why[0])
+		return 3;
+	return guide_pos >= guide_len ? 1 : 2;
+}
+static void guide_fail(const char *what, int me, unsigned point)
+{
+	if(!guide_why[0])
+		snprintf(guide_why, sizeof(guide_why), "%s at guide position %lu (expected thread %d point %u; thread %d reported point %u)", what,
+		    guide_pos, guide_pos < guide_len ? guide[guide_pos].tag : -1, guide_pos < guide_len ? guide[guide_pos].point : 0, tag_of[me], point);
+	guide_on = 0;
+}
+
 static void hang(const char *why)
 {
 	char buf[4096];
@@ -240,6 +309,56 @@ void vs_yield(unsigned point, unsigned long site)
 		return;
 
 	int do_switch;
+	if(guide_on) {
+		int is_shared = 0;
+		for(unsigned i = 0; i < n_shared; ++i)
+			is_shared |= shared_points[i] == point && site != 0;
+		if(is_shared) {
+			if(guide_pos < guide_len && guide[guide_pos].tag == tag_of[me] && guide[guide_pos].point == point) {
+				++guide_pos;
+				guide_idle = 0;
+			} else
+				guide_fail(guide_pos < guide_len ? "shared access out of turn" : "shared access after the end of the behaviour", me, point);
+		}
+		if(guide_on && guide_pos >= guide_len)
+			guide_on = 0; /* followed to the end: the rest of the run (GVT, termination, teardown) is up to the policy */
+	}
+	if(guide_on) {
+		int target = -1;
+		for(int i = 0; i < n_thr; ++i)
+			if(tag_of[i] == guide[guide_pos].tag && thr[i].state != 0)
+				target = i;
+		int waiting = 0;
+		if(target == me) {
+			if(point == 0 && site == 1 && ++guide_idle > 12)
+				guide_fail("the expected shared access is not performed (thread idle)", me, point);
+			waiting = point == 0 && (site == 2 || site == 3);
+			if(!waiting || !guide_on)
+				return;
+		}
+		if(guide_on && target >= 0 && target != me && thr[target].state == 1) {
+			hand_over(me, target);
+			return;
+		}
+		if(guide_on) {
+			/* the thread in turn waits in a thread barrier (only threads of its rank can release it), has not started yet, or is
+			 * blocked on the network (any rank may be needed; it is resumed after every single step of another thread so that
+			 * it re-tests its condition at once): let the others run, one step each */
+			if(target >= 0 && target != me && thr[target].state == 4) {
+				hand_over(me, target);
+				return;
+			}
+			for(int k = 1; k <= n_thr; ++k) {
+				int c = (guide_rr + k) % n_thr;
+				if(c != me && c != target && thr[c].state == 1 && (!waiting || thr[c].group == thr[me].group)) {
+					guide_rr = c;
+					hand_over(me, c);
+					return;
+				}
+			}
+			return;
+		}
+	}
 	if(me == park_thr && point == park_point) {
 		/* one-shot: the designated thread is kept off the processor from its first arrival at this point */
 		park_thr = -1;
@@ -309,7 +428,20 @@ void vs_block_until(int (*cond)(void *), void *arg)
 	unsigned long spins = 0;
 	while(!cond(arg)) {
 		thr[me].state = 4;
-		int next = pick_next(me, 0);
+		int next = -1;
+		if(guide_on) {
+			for(int k = 1; k <= n_thr && next < 0; ++k) {
+				int c = (guide_rr + k) % n_thr;
+				if(c != me && thr[c].state == 1)
+					next = guide_rr = c;
+			}
+			for(int k = 1; k <= n_thr && next < 0; ++k) {
+				int c = (guide_rr + k) % n_thr;
+				if(c != me && thr[c].state == 4)
+					next = guide_rr = c;
+			}
+		} else
+			next = pick_next(me, 0);
 		++steps;
 		if(step_budget && steps > step_budget) {
 			thr[me].state = 1;
